@@ -414,6 +414,28 @@ impl TransportVisitor for V {
                         viol("peek-used", format!("peek_used() = {} which is not an outstanding token", tok));
                         continue;
                     };
+                    // A caller that polls its requests in submission order first asks for a
+                    // request which is not the next one in the used ring: that must fail and
+                    // change nothing (the completion in front stays where it is).
+                    if let Some(j) = (0..nbs.len()).find(|j| *j != i) {
+                        let other = &mut nbs[j];
+                        let otok = other.token;
+                        // SAFETY: same buffers as passed at submission.
+                        let r = unsafe {
+                            if other.write {
+                                blk.complete_write_blocks(otok, &other.req, &other.buf, &mut other.resp)
+                            } else {
+                                blk.complete_read_blocks(otok, &other.req, &mut other.buf, &mut other.resp)
+                            }
+                        };
+                        tag("nb-complete-not-next");
+                        if r.is_ok() {
+                            viol("completion-order", format!("completion of token {} succeeded although the next completion in the used ring is token {}", otok, tok));
+                        }
+                        if blk.peek_used() != Some(tok) {
+                            viol("peek-used", format!("after a refused completion of token {} peek_used() = {:?}; the completion of token {} was next and has not been consumed", otok, blk.peek_used(), tok));
+                        }
+                    }
                     let mut nb = nbs.remove(i);
                     let Some(st) = nb.status else {
                         viol("peek-used", format!("peek_used() = {} but the device has not completed that request", tok));
